@@ -21,6 +21,7 @@ type oracleInfo struct {
 	iso      int // calls executed alone in a fresh process
 	dropped  int // calls dropped for exceeding the step bound
 	excluded map[int]string
+	soak     int // calls made in the one long-lived soak process
 	viol     *proto.Record
 }
 
@@ -31,6 +32,9 @@ func oracleRun(bin string, wall time.Duration, corpusPath string, order string, 
 	args := []string{"oracle", "-corpus", corpusPath, "-order", order, "-seed", strconv.FormatUint(seed, 10)}
 	if degradedMode {
 		args = append(args, "-free")
+	}
+	if order == "soak" {
+		args = append(args, "-soak", strconv.Itoa(soakCallsFor()))
 	}
 	if ids != nil {
 		s := make([]string, len(ids))
@@ -182,7 +186,7 @@ func buildOracle(b builds, cfg tierCfg) oracleInfo {
 	isoOf(sample)
 
 	// ---- batch passes over every call that is not excluded ----
-	var canon, rev, shuf, inst proto.OracleOut
+	var canon, rev, shuf, inst, soak proto.OracleOut
 	for attempt := 0; ; attempt++ {
 		var ids []int
 		for _, id := range all {
@@ -194,14 +198,15 @@ func buildOracle(b builds, cfg tierCfg) oracleInfo {
 			fatal("every corpus call crashes or hangs when made alone")
 		}
 		var wg sync.WaitGroup
-		wg.Add(4)
+		wg.Add(5)
+		go func() { defer wg.Done(); soak = oracleRun(b.ref, cfg.procWall, corpusPath, "soak", ids) }()
 		go func() { defer wg.Done(); canon = oracleRun(b.ref, cfg.procWall, corpusPath, "canonical", ids) }()
 		go func() { defer wg.Done(); rev = oracleRun(b.ref, cfg.procWall, corpusPath, "reverse", ids) }()
 		go func() { defer wg.Done(); shuf = oracleRun(b.ref, cfg.procWall, corpusPath, "shuffle", ids) }()
 		go func() { defer wg.Done(); inst = oracleRun(b.plain, cfg.procWall, corpusPath, "canonical", ids) }()
 		wg.Wait()
 		again := false
-		for _, o := range []proto.OracleOut{canon, rev, shuf, inst} {
+		for _, o := range []proto.OracleOut{canon, rev, shuf, inst, soak} {
 			at := -1
 			if o.Crash != "" {
 				at = o.CrashAt
@@ -222,7 +227,8 @@ func buildOracle(b builds, cfg tierCfg) oracleInfo {
 		// some call dies even alone: find all of them at once, drop them, run the passes again
 		isoOf(all)
 	}
-	oi.batch = len(canon.IDs) + len(rev.IDs) + len(shuf.IDs)
+	oi.batch = len(canon.IDs) + len(rev.IDs) + len(shuf.IDs) + len(soak.IDs)
+	oi.soak = len(soak.IDs)
 	oi.excluded = excluded
 	if len(excluded) > 0 {
 		logf("%d corpus call(s) crash or hang even when made alone in a fresh process (input-only, not a C13 matter): removed from the corpus", len(excluded))
@@ -302,7 +308,7 @@ func buildOracle(b builds, cfg tierCfg) oracleInfo {
 				}
 			}
 		}
-		for _, o := range []proto.OracleOut{canon, rev, shuf} {
+		for _, o := range []proto.OracleOut{canon, rev, shuf, soak} {
 			if r := check(o, "ref"); r != nil {
 				return r
 			}
@@ -601,8 +607,8 @@ func doCheck(b builds, cfg tierCfg) int {
 		logf("the tree contains %d construct(s) the simulator has no model for -> DEGRADED mode (free-running goroutines under -race)", len(b.rep.Unmodelled))
 	}
 	oi := buildOracle(b, cfg)
-	logf("sequential reference: %d calls, %d executed in batch passes (canonical, reverse, shuffled x2), %d alone in a fresh process, %d over the step bound",
-		len(oi.corpus.Calls), oi.batch, oi.iso, oi.dropped)
+	logf("sequential reference: %d calls, %d executed in batch passes (canonical, reverse, shuffled x2, soak %d in one process), %d alone in a fresh process, %d over the step bound",
+		len(oi.corpus.Calls), oi.batch, oi.soak, oi.iso, oi.dropped)
 	var agg *simAgg
 	var viol *proto.Record
 	if oi.viol != nil {
@@ -690,3 +696,7 @@ func doCheck(b builds, cfg tierCfg) int {
 func usesClock(b builds) bool {
 	return b.rep.Rewrites["time.Now"]+b.rep.Rewrites["time.Since"]+b.rep.Rewrites["time.Until"] > 0
 }
+
+var soakN = 70000
+
+func soakCallsFor() int { return soakN }
